@@ -251,6 +251,17 @@ pub fn c07(tier: &str) -> i32 {
     mg.limit_vols = vec![1, 3_000_000_000];
     mg.reload_modes = vec![0, 1, 2];
     plans.push(plan("large times (beyond 2^53), prices and volumes", mg, 3, if t { 4 } else { 3 }));
+    with_clock_boundaries(
+        &mut plans,
+        &|p| {
+            p.reload_modes = vec![0, 2];
+            p.toggles = true;
+            p.limit_vols = vec![2];
+            p.market_vols = vec![1];
+        },
+        3,
+        if t { 4 } else { 3 },
+    );
     // one price, few orders, deep: queue order that differs from id order at the snapshot point
     {
         let mut rl = Profile::core("snapshot-deep-one-price", 1, 10);
